@@ -643,7 +643,10 @@ def main():
         print("gen_code: wrote", outp)
     else:
         print("gen_code: unchanged")
-    if "unsupported" in text or "[] Order.le [] false" in text:
+    # the imperative loops (pin.rs, matrix_card.rs) go to their own file, Gen/CodeImp.lean: their obligations rebuild and break separately
+    import gen_imp
+    rc_imp = gen_imp.main(repo, os.path.join(os.path.dirname(outp), "CodeImp.lean"))
+    if "unsupported" in text or "[] Order.le [] false" in text or rc_imp:
         print("gen_code: source outside the translated subset (Stmt.unsupported emitted)", file=sys.stderr)
         sys.exit(3)
 
